@@ -799,7 +799,7 @@ def regenerate_routes() -> dict:
 
 
 # generated module name -> harness module with a `regenerate()` (statement-level translators); dependencies between them
-PROG_MODULES = {"RingProg": "progtx", "RecordProg": "progtx_record", "HookProg": "progtx_hooks", "UpdaterProg": "progtx_updater"}
+PROG_MODULES = {"RingProg": "progtx", "RecordProg": "progtx_record", "HookProg": "progtx_hooks", "UpdaterProg": "progtx_updater", "ReducerProg": "progtx_reducer"}
 PROG_USES = {"RecordProg": ["RingProg"]}
 
 
